@@ -200,6 +200,14 @@ def rename_population(tier, seed):
             if v > 0:
                 names = rng.sample(NT_POOL, len(cg["nts"]))
                 x["names"] = dict(zip(cg["nts"], names))
+                # a nonterminal named like what LALRPOP derives from the (renamed) pub nonterminal: its synthetic start
+                # symbol, its parser struct, its parse module
+                inner = [n_ for n_ in cg["nts"] if n_ not in cg["starts"]]
+                if inner and rng.random() < 0.4:
+                    derived = rng.choice(["__%s", "__%s", "%sParser", "__parse__%s", "___%s"]) % x["names"][cg["starts"][0]]
+                    if derived not in x["names"].values():
+                        x["names"][rng.choice(inner)] = derived
+                        names = list(x["names"].values())
                 pool = list(BIND_POOL)
                 if rng.random() < 0.3:   # bindings named like the (renamed) nonterminals
                     pool = names + pool
